@@ -150,7 +150,7 @@ Qed.
 
 Theorem run_source_np src : np (run_source src).
 Proof.
-  unfold run_source. apply np_bind; [apply lex_np|]. intros [toks ls] _. apply exec_f_np. exact I.
+  unfold run_source, run_source_lang. apply np_bind; [apply lex_np|]. intros [toks ls] _. apply exec_f_np. exact I.
 Qed.
 
 (* ------------------------------------------------------------------------------------------ *)
@@ -173,7 +173,7 @@ Qed.
 
 Theorem compile_np src : np (compile src).
 Proof.
-  unfold compile. pose proof (run_source_np src) as R. destruct (run_source src) as [s| | |] eqn:E; cbn [bind]; try exact I; [|exact R].
+  unfold compile, compile_lang. fold (run_source src). pose proof (run_source_np src) as R. destruct (run_source src) as [s| | |] eqn:E; cbn [bind]; try exact I; [|exact R].
   destruct (generate_value s (proj1 (run_source_inv src s E))) as [bs G]. rewrite G. exact I.
 Qed.
 Theorem compile_never_panics : forall (src : list Z) (site : Z), compile src <> Panic site.
@@ -188,7 +188,7 @@ Theorem compile_outcomes src :
   | Panic _ => False
   end.
 Proof.
-  unfold compile. pose proof (run_source_np src) as R. destruct (run_source src) as [s| | |] eqn:E; cbn [bind]; try reflexivity; [|exact R].
+  unfold compile, compile_lang. fold (run_source src). pose proof (run_source_np src) as R. destruct (run_source src) as [s| | |] eqn:E; cbn [bind]; try reflexivity; [|exact R].
   destruct (generate_value s (proj1 (run_source_inv src s E))) as [bs G]. rewrite G. cbn [bind]. exists s. reflexivity.
 Qed.
 
@@ -275,7 +275,7 @@ Proof. intros steps depth toks s H B E. pose proof (exec_f_nf steps depth toks s
    is loop-free, macro-free, PLAY-free, nested less deep than S (length src) and shorter at every level than STEPS *)
 Definition compile_fuel_ok (src : list Z) : bool :=
   forallb nodollar src &&
-  match lex (mkLex 96 [] init_vars rhythm_rows) src 0 with
+  match lex (mkLex 96 [] init_vars rhythm_rows false) src 0 with
   | Ok (toks, _) => fuel_ok (S (length src)) STEPS toks
   | _ => true
   end.
@@ -283,8 +283,8 @@ Theorem compile_fuel_partial src : compile_fuel_ok src = true -> compile src <> 
 Proof.
   unfold compile_fuel_ok. intros H. apply andb_prop in H. destruct H as [H1 H2].
   pose proof (compile_outcomes src) as O. destruct (compile src) eqn:C; try discriminate. intros _.
-  unfold run_source in O. pose proof (lex_terminates_initial src 0 H1) as [L _].
-  destruct (lex (mkLex 96 [] init_vars rhythm_rows) src 0) as [[toks ls]| | |]; cbn [bind] in O; try discriminate; [|exact (L eq_refl)].
+  unfold run_source, run_source_lang in O. pose proof (lex_terminates_initial false src 0 H1) as [L _].
+  destruct (lex (mkLex 96 [] init_vars rhythm_rows false) src 0) as [[toks ls]| | |]; cbn [bind] in O; try discriminate; [|exact (L eq_refl)].
   pose proof (exec_f_nf STEPS (S (length src)) toks (song_after_lex ls) H2 eq_refl) as Q. rewrite O in Q. exact Q.
 Qed.
 Example compile_fuel_example :
@@ -339,7 +339,7 @@ Proof. intros steps depth toks s H B E. pose proof (exec_f_nf_loops steps depth 
 (* the loop-free bound is a special case *)
 Definition compile_fuel_ok_loops (src : list Z) : bool :=
   forallb nodollar src &&
-  match lex (mkLex 96 [] init_vars rhythm_rows) src 0 with
+  match lex (mkLex 96 [] init_vars rhythm_rows false) src 0 with
   | Ok (toks, _) => fuel_ok_loops (S (length src)) STEPS toks
   | _ => true
   end.
@@ -347,8 +347,8 @@ Theorem compile_fuel_loops src : compile_fuel_ok_loops src = true -> compile src
 Proof.
   unfold compile_fuel_ok_loops. intros H. apply andb_prop in H. destruct H as [H1 H2].
   pose proof (compile_outcomes src) as O. destruct (compile src) eqn:C; try discriminate. intros _.
-  unfold run_source in O. pose proof (lex_terminates_initial src 0 H1) as [L _].
-  destruct (lex (mkLex 96 [] init_vars rhythm_rows) src 0) as [[toks ls]| | |]; cbn [bind] in O; try discriminate; [|exact (L eq_refl)].
+  unfold run_source, run_source_lang in O. pose proof (lex_terminates_initial false src 0 H1) as [L _].
+  destruct (lex (mkLex 96 [] init_vars rhythm_rows false) src 0) as [[toks ls]| | |]; cbn [bind] in O; try discriminate; [|exact (L eq_refl)].
   pose proof (exec_f_nf_loops STEPS (S (length src)) toks (song_after_lex ls) H2 eq_refl) as Q. rewrite O in Q. exact Q.
 Qed.
 Example compile_fuel_loops_example :
